@@ -166,7 +166,11 @@ func runC12(c *an.Ctx) {
 				}
 				c.Check(pins, "R2", key+": entry pins the input string", k.use.Pos(), "the entry keeps arg.Value(), so its memory cannot be reused while the entry is alive",
 					"the stored entry does not retain the input string: after the input is garbage collected another string can get the same pointer and length and hit this entry")
-				c.Check(strings.Contains(arg, "value"), "R3", key+": the running value is stored", k.use.Pos(), "arg = "+arg, "the entry's value is "+arg+", not the running transformed value")
+				okRun, whyRun := false, "the running value of the transformation loop was not found"
+				if run := runningValuePhi(fn); run != nil {
+					okRun, whyRun = runningValueDiscipline(lits[k.val]["arg"], k.use.Block(), run, false)
+				}
+				c.Check(okRun, "R3", key+": the running value is stored", k.use.Pos(), "arg = "+arg+" (the running value after the step, a failed step leaving it unchanged)", "the entry's value is "+arg+", not the running transformed value: "+whyRun+" — later rules sharing the prefix receive a value their own transformation list would never produce")
 			} else {
 				c.Bad("R2", key+": entry pins the input string", k.use.Pos(), "the stored value is not a transformationValue literal")
 			}
